@@ -40,6 +40,7 @@ META = {
         "outcome failed. distinct_nontrivial = distinct terminal per-message logs."
         " Shared exception object: two executions fail with the very same exception instance (two waiters of one failed future) and finish functions and teardowns in every order."
         " Three executions in flight at once finishing in every order."
+        " Task exceptions deriving from BaseException but not Exception (custom BaseException, CancelledError, SystemExit), both propagate settings."
     ),
     "assumptions": [
         "dependency functions are generated real functions recording open/close; taskiq_dependencies 1.5.7 is the pinned resolver (outside /repo)",
@@ -214,6 +215,18 @@ def scenarios(tier: str) -> List[Dict[str, Any]]:
                     out.append({"A": 2, "P": 1, "N": None, "stream": "finite", "stop": False, "level": lvl,
                                 "propagate": True, "ack_type": "when_saved", "deps": deps,
                                 "msgs": [_msg("return" if o1 == "fail" else o1, "sync"), _msg("return" if o2 == "fail" else o2, "sync")]})
+    # task exceptions that derive from BaseException but not from Exception (custom BaseException, CancelledError
+    # of an awaited inner future, SystemExit of a sync task): thrown into the dependencies like any other
+    for shape in ("chain2", "2flat"):
+        k = len(SHAPES[shape][1])
+        for styles in (("gen", "agen")[:k], ("cm", "acm")[:k]):
+            for exc in ("CustomBase", "CancelledError", "SystemExit"):
+                for prop in (True, False):
+                    m = dict(_msg("raise", "sync"), exc=exc)
+                    if exc == "SystemExit":
+                        m["flavour"] = "sync"
+                    out.append({"A": 2, "P": 0, "N": None, "stream": "finite", "stop": False, "level": 0,
+                                "propagate": prop, "ack_type": "when_saved", "deps": _deps(shape, styles), "msgs": [m]})
     # three executions in flight at once, finishing in every order (the middle one first, ...)
     for shape in (("chain2",) if tier == "quick" else ("chain2", "2flat", "diamond")):
         k = len(SHAPES[shape][1])
